@@ -21,7 +21,7 @@ import (
 // C19: encodings are lossless - RPCs through the bundled (real gRPC) transport,
 // log records, term/vote, configurations and snapshot metadata round-trip.
 
-const c19Rule = "generated AppendEntries / RequestVote / InstallSnapshot requests and responses sent through two bundled transports on loopback (real gRPC): every field over {0, 1, max uint64, random}, ids empty / ASCII / multi-byte UTF-8, 0-64 entries of all three types with nil / empty / 1 B / large data, snapshot chunks of 0 B - 64 KiB; log entries, (term, vote) pairs, configurations (0-7 members, voters and non-voters) and snapshot metadata written through the storage API and read back by a fresh instance; oracle: received == sent and returned == generated field by field (nil and empty byte slices are equal on the wire; LogEntry.Offset is storage-local); plus an end-to-end transfer of a snapshot of N bytes (below and above the 32 KiB chunk size and the 4 MiB default RPC limit) from a leader to an empty node over the bundled transport; " +
+const c19Rule = "generated AppendEntries / RequestVote / InstallSnapshot requests and responses sent through two bundled transports on loopback (real gRPC): every field over {0, 1, max uint64, random}, ids empty / ASCII / multi-byte UTF-8, 0-64 entries of all three types with nil / empty / 1 B / large data (single entries and stored log entries up to 3 MiB), snapshot chunks of 0 B - 64 KiB; log entries, (term, vote) pairs, configurations (0-7 members, voters and non-voters) and snapshot metadata written through the storage API and read back by a fresh instance; oracle: received == sent and returned == generated field by field (nil and empty byte slices are equal on the wire; LogEntry.Offset is storage-local); plus an end-to-end transfer of a snapshot of N bytes (below and above the 32 KiB chunk size and the 4 MiB default RPC limit) from a leader to an empty node over the bundled transport; " +
 	"non-trivial = the message contains a configuration-type entry, an extreme value (0 / max uint64 / non-ASCII id) or a payload above the chunk size; distinct by hash of the generated value"
 
 type codecPair struct {
@@ -133,6 +133,18 @@ func genData(t *rapid.T, label string) []byte {
 	return []byte("op")
 }
 
+// genBigData: payloads around and above 1 MiB. The library states no limit on the size of an
+// operation; what the bundled transport can replicate is bounded by its 4 MiB message limit.
+func genBigData(t *rapid.T, label string) []byte {
+	n := rapid.SampledFrom([]int{1<<20 - 64, 1 << 20, 1<<20 + 1, 2<<20 + 7, 3 << 20}).Draw(t, label+"big")
+	b := make([]byte, n)
+	seed := rapid.Byte().Draw(t, label+"bs")
+	for i := range b {
+		b[i] = byte(i)*17 + seed
+	}
+	return b
+}
+
 func genConf(t *rapid.T, tr raft.Transport) (raft.Configuration, []byte) {
 	n := rapid.IntRange(0, 7).Draw(t, "members")
 	cf := raft.Configuration{Members: map[string]string{}, IsVoter: map[string]bool{}, Index: genU64(t, "confIndex")}
@@ -198,6 +210,9 @@ func oneCodecCase(rt *rapid.T, p *codecPair, dir string) (string, bool, any) {
 			var d []byte
 			if ty == raft.ConfigurationEntry {
 				_, d = genConf(rt, p.a)
+				nt = true
+			} else if n == 1 && rapid.IntRange(0, 3).Draw(rt, "big") == 0 {
+				d = genBigData(rt, "data")
 				nt = true
 			} else {
 				d = genData(rt, "data")
@@ -297,6 +312,9 @@ func oneCodecCase(rt *rapid.T, p *codecPair, dir string) (string, bool, any) {
 			var d []byte
 			if ty == raft.ConfigurationEntry {
 				_, d = genConf(rt, p.a)
+				nt = true
+			} else if rapid.IntRange(0, 9).Draw(rt, "big") == 0 {
+				d = genBigData(rt, "data")
 				nt = true
 			} else {
 				d = genData(rt, "data")
